@@ -281,7 +281,13 @@ class UTPM(Ring, RawAlgorithmsMixIn):
         ybar, dummy, xbar = out
         # print 'xbar =', xbar
         # print 'ybar =', ybar
-        xbar += ybar[sl]
+        if isinstance(xbar, cls) and xbar.shape != ybar[sl].shape:
+            # x was broadcast into y[sl]: every element of x collects the
+            # adjoints of all the entries it was copied to
+            xbar2, tmp = cls.broadcast(xbar, ybar[sl])
+            workaround_strides_function(xbar2, tmp, operator.iadd)
+        else:
+            xbar += ybar[sl]
         ybar[sl].data[...] = 0.
         # print 'funcargs=',funcargs
         # print y[funcargs[0]]
